@@ -50,7 +50,7 @@ def _rig():
 
 def _path(rig, entry):
     e = ENTRY[entry]
-    return rig.entry_path(e["kind"], e["text"])
+    return rig.entry_file(e["kind"], e["text"], e["mode"])  # discovered by effect, never re-derived
 
 
 def _clean(rig, body=1):
